@@ -52,7 +52,7 @@ pub fn book_export(opts: &Opts) -> i32 {
         nodes[id - 1] = out;
     }
     let nodes_json: Vec<Value> = nodes.iter().map(|n| json!(n.iter().map(|e| json!([e.0, e.1, e.2])).collect::<Vec<_>>())).collect();
-    std::fs::write(opts.str("out", "book.json"), json!({"nodes": nodes_json, "depth": 8}).to_string()).unwrap();
+    std::fs::write(opts.str("out", "book.json"), json!({"nodes": nodes_json, "depth": 64}).to_string()).unwrap();
     std::fs::write(opts.str("walk", "bookwalk.json"), json!(walk).to_string()).unwrap();
     out_line("SUMMARY", &json!({"counts": {"nodes": nodes.len(), "edges": edges, "refused": refused}, "distinct": nodes.len(),
                                 "nontrivial": edges, "mismatches": 0, "samples": [], "extra": {}}));
